@@ -222,13 +222,60 @@ def check_batch(params):
     return out
 
 
+def check_qudits(params):
+    """Discarding and maximally mixed states on wires of any dimension (digits and qudits):
+    Discard is the trace / the sum over values, MixedState its adjoint, their composite the
+    dimension, also for several wires of different kinds and dimensions."""
+    from discopy.quantum.circuit import Ty, Digit, Qudit, Discard, MixedState
+    kinds = [tuple(x) for x in params["wires"]]      # ('Digit' | 'Qudit', dimension)
+    t = Ty(*[(Digit if k == "Digit" else Qudit)(d) for k, d in kinds])
+    out = []
+
+    def bad(kind, msg):
+        out.append((_sig(kind, params), "wires %s: %s" % (kinds, msg)))
+    for ob, (k, d) in zip(t.objects, kinds):
+        if getattr(ob, "dim", None) != d:
+            bad("qudit-dim", "the wire %r reports dimension %r" % (ob, getattr(ob, "dim", None)))
+            return out
+    cdims = tuple(d for k, d in kinds if k == "Digit")
+    qdims = tuple(d for k, d in kinds if k == "Qudit")
+    want = np.ones(cdims or (1,))
+    eye = np.ones(())
+    for d in qdims:
+        eye = np.multiply.outer(eye, np.eye(d))
+    # CQMap layout: classical wires first, then the quantum wires, then their copies
+    nq = len(qdims)
+    if nq:
+        eye = np.transpose(eye, [2 * i for i in range(nq)] + [2 * i + 1 for i in range(nq)])
+    want = np.multiply.outer(want.reshape(cdims) if cdims else np.ones(()), eye)
+    try:
+        dis, mix = Discard(t).eval(mixed=True), MixedState(t).eval(mixed=True)
+        both = (MixedState(t) >> Discard(t)).eval(mixed=True)
+    except Exception as e:  # noqa
+        bad("qudit-raises", "%s: %s" % (type(e).__name__, str(e)[:120]))
+        return out
+    total = int(np.prod([d for _, d in kinds])) if kinds else 1
+    for label, v in (("Discard", dis), ("MixedState", mix)):
+        a = np.asarray(v.array, dtype=complex)
+        if a.size != want.size or not qref.close(a.reshape(want.shape), want):
+            bad("qudit-value", "%s(%s).eval(mixed=True) = %s, expected the trace / uniform weights %s"
+                % (label, t, np.round(a.real, 3).tolist(), want.tolist()))
+            return out
+    if not qref.close(np.asarray(both.array, dtype=complex).reshape(1), np.array([total])):
+        bad("qudit-dimension", "(MixedState >> Discard).eval(mixed=True) = %s, expected the dimension %d" % (both.array, total))
+    cd = tuple(o.name for o in dis.dom.classical.objects), tuple(o.name for o in dis.dom.quantum.objects)
+    if cd != (cdims, qdims):
+        bad("qudit-type", "Discard(%s).eval(mixed=True) has domain %s" % (t, dis.dom))
+    return out
+
+
 def norm(r):
     def t(x):
         return tuple(t(y) for y in x) if isinstance(x, (list, tuple)) else x
     return t(r)
 
 
-CASES = {k: safe("C12", f) for k, f in {"circuit": check_circuit, "batch": check_batch}.items()}
+CASES = {k: safe("C12", f) for k, f in {"circuit": check_circuit, "batch": check_batch, "qudits": check_qudits}.items()}
 
 
 def _worker(shard):
@@ -306,6 +353,11 @@ def run(ctx):
             items.append(("batch", dict(recipes=[a, b])))
     for tr in itertools.permutations(menu[:6], 3):
         items.append(("batch", dict(recipes=list(tr))))
+    wires = [(k_, d_) for k_ in ("Digit", "Qudit") for d_ in (2, 3, 4)]
+    for n in (1, 2):
+        for ws in itertools.product(wires, repeat=n):
+            items.append(("qudits", dict(wires=[list(w) for w in ws])))
+    items.append(("qudits", dict(wires=[["Qudit", 3], ["Digit", 2], ["Qudit", 2]])))
     for p in pmap(_worker, build.shards(items, 128)):
         ctx.merge(p)
     ctx.counters["traces_validated_against_impl"] = ctx.counters.get("transitions", 0)
